@@ -94,16 +94,22 @@ def frame_cases(draw):
     asc, consolidate = draw(st.booleans()), draw(st.booleans())
     keyfn = draw(st.sampled_from([None, 'abs', None, 'array', None, 'container_neg']))
     name = draw(st.sampled_from([None, 'fn']))
+    ih_index = draw(st.integers(0, 11)) == 11   # rows labelled by a hierarchy (a sorted order that splits an outer label is a listed finding: 1 in 12)
     nk = draw(st.sampled_from([2, 1, 3]))
     n = draw(sizes())
     keycols = [draw(key_column(n)) for _ in range(nk)]
     extra = draw(st.integers(0, 2))
     payload = [np.arange(n) * 10 + q for q in range(extra + 1)]  # distinct per row: identifies whole rows
     order = draw(st.permutations(list(range(nk + extra + 1))))
+    auto = False
     if what in ('sort_index', 'sort_columns'):
-        kind = draw(st.sampled_from(['int', 'str', 'float', 'date']))
-        labs = draw(gen.flat_labels(n, kind))
-        keycols = [gen.to_array({'int': 'int64', 'str': '<U3', 'float': 'float64', 'date': 'M8[D]'}[kind], labs)]
+        kind = draw(st.sampled_from(['int', 'str', 'auto', 'float', 'date']))
+        if kind == 'auto':  # no labels given: the axis is the automatic 0..n-1 index, only a key function can reorder it
+            auto = True
+            keycols = [np.arange(n, dtype=np.int64)]
+        else:
+            labs = draw(gen.flat_labels(n, kind))
+            keycols = [gen.to_array({'int': 'int64', 'str': '<U3', 'float': 'float64', 'date': 'M8[D]'}[kind], labs)]
     elif what == 'sort_index_ih' and n:
         tl = draw(gen.tree_labels_n(n))
         depth = len(tl[0])
@@ -112,7 +118,7 @@ def frame_cases(draw):
             col = [t[d] for t in tl]
             k = 'M8[D]' if isinstance(col[0], np.datetime64) else ('<U3' if isinstance(col[0], str) else 'int64')
             keycols.append(gen.to_array(k, col))
-    return {'what': what, 'keycols': keycols, 'payload': payload, 'order': list(order), 'asc': asc, 'keyfn': keyfn, 'consolidate': consolidate, 'name': name}
+    return {'what': what, 'keycols': keycols, 'payload': payload, 'order': list(order), 'asc': asc, 'keyfn': keyfn, 'consolidate': consolidate, 'name': name, 'auto': auto, 'ih_index': ih_index}
 
 
 def _layout(cols, consolidate):
@@ -129,7 +135,7 @@ def check_frame(case):
     numeric = all(c.dtype.kind in 'if' for c in keycols)
     if keyfn and not numeric:
         keyfn = None
-    classes = ['what:' + what, 'asc' if asc else 'desc', 'keys:%d' % nk, 'keyfn:%s' % keyfn, 'n>16' if n > 16 else 'n<=8',
+    classes = ['what:' + what + ('/auto' if case.get('auto') else ''), 'asc' if asc else 'desc', 'keys:%d' % nk, 'keyfn:%s' % keyfn, 'n>16' if n > 16 else 'n<=8',
                'keykind:' + '/'.join(sorted({c.dtype.kind for c in keycols}))]
 
     def fn_keys(cols):
@@ -147,8 +153,12 @@ def check_frame(case):
             cols = [allcols[i] for i in case['order']]
             labels = ['c%d' % i for i in case['order']]  # c0..c{nk-1} are the keys
             key_labels = ['c%d' % i for i in range(nk)]
+            rix = ['r%d' % i for i in range(n)]
+            if case.get('ih_index') and n:
+                rix = sf.IndexHierarchy.from_labels([('g%d' % (i * 2 // n), i) for i in range(n)])
+                classes.append('rows:hierarchy')
             f = sf.Frame(sf.TypeBlocks.from_blocks([gen.freeze(b) for b in _layout(cols, case['consolidate'])], shape_reference=(n, len(cols))),
-                         index=['r%d' % i for i in range(n)], columns=labels, name=case['name'], own_data=True)
+                         index=rix, columns=labels, name=case['name'], own_data=True)
             kf = None
             if keyfn == 'abs':
                 kf = lambda x: abs(x)
@@ -159,7 +169,7 @@ def check_frame(case):
             lab = key_labels if nk > 1 else (key_labels[0] if case['consolidate'] else key_labels)
             r = lib(lambda: f.sort_values(lab, ascending=asc, key=kf))
             exp = expected_order(fn_keys(keycols), asc)
-            row_labels = ['r%d' % i for i in range(n)]
+            row_labels = obs.labels_of(f.index)
         else:
             # keys live in the index (flat for one key, hierarchical for several)
             if what == 'sort_index' or nk == 1:
@@ -168,7 +178,7 @@ def check_frame(case):
                 raise_dup = len({repr(_okey(x)) for x in arr_list(kc[0])}) != n
                 if raise_dup or any(is_missing(x) for x in arr_list(kc[0])):
                     raise Discard('index labels must be unique and not NaN')
-                ix = sf.Index(kc[0]) if kc[0].dtype.kind != 'M' else sf.IndexDate(kc[0])
+                ix = None if case.get('auto') else (sf.Index(kc[0]) if kc[0].dtype.kind != 'M' else sf.IndexDate(kc[0]))
                 use_keys = kc
             else:
                 tuples = list(zip(*[arr_list(c) for c in keycols]))
@@ -221,12 +231,20 @@ def check_frame(case):
         if len({repr(_okey(x)) for x in arr_list(kc)}) != n or any(is_missing(x) for x in arr_list(kc)):
             raise Discard('column labels must be unique and not NaN')
         arr = np.arange(2 * n).reshape(2, n)
-        cix = sf.Index(kc) if kc.dtype.kind != 'M' else sf.IndexDate(kc)
+        cix = None if case.get('auto') else (sf.Index(kc) if kc.dtype.kind != 'M' else sf.IndexDate(kc))
         f = sf.Frame(gen.freeze(arr), index=('x', 'y'), columns=cix, name=case['name'])
-        r = lib(lambda: f.sort_columns(ascending=asc))
+        kf, use = None, [kc]
+        if keyfn == 'abs':
+            kf, use = (lambda i: np.abs(i.values)), fn_keys(use)
+        elif keyfn == 'array':
+            kf, use = (lambda i: np.abs(i.values) % 2), fn_keys(use)
+        elif keyfn:
+            kf, use = (lambda i: -i), fn_keys(use)
+        r = lib(lambda: f.sort_columns(ascending=asc, key=kf))
         if isinstance(r, Raised):
             raise Failure('raised:%s' % r.cls, 'sort_columns raised %r' % r.exc, r.where)
-        exp = expected_order([kc], asc)
+        exp = expected_order(use, asc)
+        kc = use[0]
         obs.expect_frame(r, ['x', 'y'], [obs.labels_of(f.columns)[j] for j in exp], [arr_list(arr[:, j]) for j in exp], what, name=case['name'])
         keys_used = [kc]
     nt = has_informative_tie(keys_used, None) and n >= 2
@@ -240,8 +258,11 @@ def check_frame(case):
 @st.composite
 def series_cases(draw):
     ch = {'what': draw(st.sampled_from(['sort_values', 'sort_values', 'sort_index'])), 'asc': draw(st.booleans()),
-          'keyfn': draw(st.sampled_from([None, 'abs', None, 'array'])), 'name': draw(st.sampled_from([None, 'sn']))}  # decisive choices first
+          'keyfn': draw(st.sampled_from([None, 'abs', None, 'array'])), 'name': draw(st.sampled_from([None, 'sn'])),
+          'auto': draw(st.integers(0, 3)) == 3, 'ih_index': draw(st.integers(0, 11)) == 11}  # decisive choices first
     n = draw(sizes())
+    if ch['auto'] and ch['what'] == 'sort_index':
+        return dict({'vals': np.arange(n, dtype=np.int64)}, **ch)
     return dict({'vals': draw(key_column(n))}, **ch)
 
 
@@ -251,7 +272,10 @@ def check_series(case):
     asc = case['asc']
     keyfn = case['keyfn'] if vals.dtype.kind in 'if' else None
     if case['what'] == 'sort_values':
-        s = sf.Series(gen.freeze(vals), index=['r%d' % i for i in range(n)], name=case['name'])
+        rix = ['r%d' % i for i in range(n)]
+        if case.get('ih_index') and n:
+            rix = sf.IndexHierarchy.from_labels([('g%d' % (i * 2 // n), i) for i in range(n)])
+        s = sf.Series(gen.freeze(vals), index=rix, name=case['name'])
         kf, keys = None, [vals]
         if keyfn == 'abs':
             kf, keys = (lambda x: abs(x)), [np.abs(vals)]
@@ -259,16 +283,20 @@ def check_series(case):
             kf, keys = (lambda x: np.abs(x.values) % 2), [np.abs(vals) % 2]
         r = lib(lambda: s.sort_values(ascending=asc, key=kf))
         exp = expected_order(keys, asc)
-        want_labels, want_vals = ['r%d' % i for i in exp], [arr_list(vals)[i] for i in exp]
+        want_labels, want_vals = [obs.labels_of(s.index)[i] for i in exp], [arr_list(vals)[i] for i in exp]
     else:
         if len({repr(_okey(x)) for x in arr_list(vals)}) != n or any(is_missing(x) for x in arr_list(vals)):
             raise Discard('index labels must be unique and not NaN')
-        ix = sf.Index(vals) if vals.dtype.kind != 'M' else sf.IndexDate(vals)
+        ix = None if case.get('auto') else (sf.Index(vals) if vals.dtype.kind != 'M' else sf.IndexDate(vals))
         s = sf.Series(np.arange(n) * 10, index=ix, name=case['name'])
-        r = lib(lambda: s.sort_index(ascending=asc))
-        exp = expected_order([vals], asc)
+        kf, keys = None, [vals]
+        if keyfn == 'abs':
+            kf, keys = (lambda i: np.abs(i.values)), [np.abs(vals)]
+        elif keyfn == 'array':
+            kf, keys = (lambda i: np.abs(i.values) % 2), [np.abs(vals) % 2]
+        r = lib(lambda: s.sort_index(ascending=asc, key=kf))
+        exp = expected_order(keys, asc)
         want_labels, want_vals = [obs.labels_of(s.index)[i] for i in exp], [i * 10 for i in exp]
-        keys = [vals]
     if isinstance(r, Raised):
         raise Failure('raised:%s' % r.cls, 'Series.%s raised %r' % (case['what'], r.exc), r.where)
     obs.LOOSE_MISSING[0] = True
@@ -280,6 +308,10 @@ def check_series(case):
 def tag(case, f):
     if f.kind == 'raised:StopIteration' and case.get('what') == 'sort_values_axis0' and len(case['payload'][0]) == 0:
         return 'sort-values-axis0-on-zero-columns-raises-stopiteration'
+    # rows labelled by a hierarchy: an IndexHierarchy only holds labels in tree form, so a sorted order that separates the
+    # rows of one outer label cannot be built
+    if f.kind == 'raised:ErrorInitIndex' and case.get('ih_index') and 'invalid tree-form' in f.detail and case.get('what') == 'sort_values':
+        return 'sort-values-order-splitting-a-hierarchy-outer-label-raises'
     return None
 
 
